@@ -45,9 +45,9 @@ Theorem C08_lenient_inherited : forall ts l heap s h hd,
 Proof. exact lenient_inherited. Qed.
 Print Assumptions C08_lenient_inherited.
 
-Theorem C08_new_handle_copies : forall ts s h hd name s' n,
+Theorem C08_new_handle_copies : forall ts s h hd name xid num s' n,
   nth_error (hs s) h = Some hd ->
-  (step ts s (OCreateView h name) = (s', ObHandle n) \/ step ts s (OGetView h name) = (s', ObHandle n)) ->
+  (step ts s (OCreateView h name xid num) = (s', ObHandle n) \/ step ts s (OGetView h name) = (s', ObHandle n)) ->
   n = List.length (hs s) /\ hs s' = hs s ++ [mkHandle name (h_lenient hd)].
 Proof. exact new_handle_copies. Qed.
 Print Assumptions C08_new_handle_copies.
@@ -120,13 +120,34 @@ Theorem C08_views_disjoint_select : forall ts l s o j b,
 Proof. exact views_disjoint_select. Qed.
 Print Assumptions C08_views_disjoint_select.
 
-(* ---- shared_ids: one generator for all handles, sofas and structures *)
+(* ---- shared_ids: one generator for all handles, sofas and structures.  create_view(name, xmiID=k, sofaNum=m) is
+   part of the histories: an explicit id moves the shared generator past it (reserve_id), so it is never generated
+   afterwards through any handle.  `reachable_fresh`: histories in which every explicit number was at or above the
+   generator's next value when passed — in particular (C08_no_explicit_fresh) all histories without explicit numbers,
+   for which C08_shared_ids_fresh / C08_sofa_nums_distinct are the statements of the first version of this file. *)
 Theorem C08_shared_ids : forall ts l heap s,
   heap0_okb heap = true -> reachable ts l heap s ->
   NoDup (st_genlog (st s)) /\ Forall (fun i => i < st_next_id (st s)) (st_genlog (st s)) /\
-  Forall (fun x => In (s_xid x) (st_genlog (st s))) (st_sheap (st s)).
+  Forall (fun x => s_xid x < st_next_id (st s)) (st_sheap (st s)).
 Proof. exact shared_ids. Qed.
 Print Assumptions C08_shared_ids.
+
+Theorem C08_shared_ids_fresh : forall ts l heap s,
+  heap0_okb heap = true -> reachable_fresh ts l heap s ->
+  NoDup (st_genlog (st s)) /\ Forall (fun i => i < st_next_id (st s)) (st_genlog (st s)) /\
+  Forall (fun x => In (s_xid x) (st_genlog (st s))) (st_sheap (st s)).
+Proof. exact shared_ids_fresh. Qed.
+Print Assumptions C08_shared_ids_fresh.
+
+Theorem C08_no_explicit_fresh : forall ts ops s, forallb no_explicit ops = true -> fresh_run ts s ops = true.
+Proof. exact no_explicit_fresh. Qed.
+Print Assumptions C08_no_explicit_fresh.
+
+Theorem C08_sofa_id_never_generated : forall ts l s ops x,
+  inv l s -> In x (st_sheap (st s)) ->
+  exists extra, st_genlog (st (fst (run ts s ops))) = extra ++ st_genlog (st s) /\ ~ In (s_xid x) extra.
+Proof. exact sofa_id_never_generated. Qed.
+Print Assumptions C08_sofa_id_never_generated.
 
 Theorem C08_generated_id_fresh : forall ts l s h o s',
   inv l s -> step ts s (OAdd h o false) = (s', ObUnit) ->
@@ -136,8 +157,28 @@ Theorem C08_generated_id_fresh : forall ts l s h o s',
 Proof. exact generated_id_fresh. Qed.
 Print Assumptions C08_generated_id_fresh.
 
+Theorem C08_generated_id_no_sofa : forall ts l s h o keep s' fs,
+  inv l s -> step ts s (OAdd h o keep) = (s', ObUnit) -> hget o (st_heap (st s)) = Some fs ->
+  keep = false \/ f_xid fs = None ->
+  (exists fs', hget o (st_heap (st s')) = Some fs' /\ f_xid fs' = Some (st_next_id (st s))) /\
+  Forall (fun x => s_xid x <> st_next_id (st s)) (st_sheap (st s')).
+Proof. exact generated_id_no_sofa. Qed.
+Print Assumptions C08_generated_id_no_sofa.
+
+Theorem C08_create_view_explicit : forall ts l s h name xid num s' n,
+  inv l s -> step ts s (OCreateView h name xid num) = (s', ObHandle n) ->
+  exists x, view_sofa (st s') name = Some x /\
+            s_xid x = (match xid with Some k => k | None => st_next_id (st s) end) /\
+            s_num x = (match num with Some k => k | None => st_next_sofa (st s) end) /\
+            s_name x = name /\ s_text x = None /\
+            s_xid x < st_next_id (st s') /\ s_num x < st_next_sofa (st s') /\
+            st_next_id (st s) <= st_next_id (st s') /\ st_next_sofa (st s) <= st_next_sofa (st s') /\
+            st_sheap (st s') = st_sheap (st s) ++ [x].
+Proof. exact create_view_explicit. Qed.
+Print Assumptions C08_create_view_explicit.
+
 Theorem C08_create_view_fresh : forall ts l s h name s' n,
-  inv l s -> step ts s (OCreateView h name) = (s', ObHandle n) ->
+  inv l s -> step ts s (OCreateView h name None None) = (s', ObHandle n) ->
   exists x, view_sofa (st s') name = Some x /\ s_xid x = st_next_id (st s) /\ s_num x = st_next_sofa (st s) /\
             s_name x = name /\ s_text x = None /\
             (forall y, In y (st_sheap (st s)) -> s_xid y <> s_xid x /\ s_num y <> s_num x).
@@ -145,10 +186,17 @@ Proof. exact create_view_fresh. Qed.
 Print Assumptions C08_create_view_fresh.
 
 Theorem C08_sofa_nums_distinct : forall ts l heap s a b x y,
-  heap0_okb heap = true -> reachable ts l heap s ->
+  heap0_okb heap = true -> reachable_fresh ts l heap s ->
   nth_error (st_sheap (st s)) a = Some x -> nth_error (st_sheap (st s)) b = Some y -> s_num x = s_num y -> a = b.
 Proof. exact sofa_nums_distinct. Qed.
 Print Assumptions C08_sofa_nums_distinct.
+
+(* the premise `fresh` is needed: a number below the generator's next value is taken as it is (the caller's business) *)
+Theorem C08_stale_explicit_id_repeats :
+  exists ts heap ops x y, let s := fst (run ts (init0 false heap) ops) in
+    nth_error (st_sheap (st s)) 0 = Some x /\ nth_error (st_sheap (st s)) 1 = Some y /\ s_xid x = s_xid y /\ s_num x = s_num y.
+Proof. exact stale_explicit_id_repeats. Qed.
+Print Assumptions C08_stale_explicit_id_repeats.
 
 (* ---- docann_once *)
 Theorem C08_docann_once : forall ts l r s name o,
@@ -263,11 +311,29 @@ Example C08_premises_hold :
   let heap := [(0%N, mkFs "t.Tok" true true None None (Some 1) (Some 4) None);
                (1%N, mkFs "x.Foreign" true true None None (Some 0) (Some 1) None)] in
   let k := mkCtor false (Some [97; 98; 99; 100; 101]%N) None None in
-  let ops := [OCreateView 0 "v2"; OGetView 1 "_InitialView"; OAdd 2 0%N true; OCovered 0%N;
+  let ops := [OCreateView 0 "v2" None None; OGetView 1 "_InitialView"; OAdd 2 0%N true; OCovered 0%N;
               OSetText 1 (Some [120; 121; 122]%N); OAdd 1 0%N true; OCovered 0%N; OAdd 1 1%N true;
               OSetLang 2 (Some "en"); OGetLang 0; OSelectAll 0; OSelectAll 1] in
   heap0_okb heap = true /\ labels_okb heap = true /\ memb DOCANN (ts_types ts) = true /\ memb DOCANN (ts_family ts) = true /\
   snd (run ts (init ts k heap) ops) =
     [ObHandle 1; ObHandle 2; ObUnit; ObText (Some [98; 99; 100]%N); ObUnit; ObUnit; ObText (Some [121; 122]%N);
      ObErr ERuntime; ObUnit; ObStr (Some "en"); ObSel [0; 1000]%N; ObSel [0]%N].
+Proof. cbv zeta. repeat split; vm_compute; reflexivity. Qed.
+
+(* non-vacuity for the explicit-id theorems: a view created through a derived handle with xmiID 6 and sofaNum 4; the
+   structures added afterwards through three handles get 7, 8, 9 (never 6), a third view gets id 10 and number 5;
+   the history is fresh *)
+Example C08_explicit_ids :
+  let ts := mkTs ["t.Tok"; DOCANN] [DOCANN; "t.Doc"] in
+  let heap := [(0%N, mkFs "t.Tok" true true None None (Some 0) (Some 1) None);
+               (1%N, mkFs "t.Tok" true true None None (Some 1) (Some 2) None);
+               (2%N, mkFs "t.Tok" true true None None (Some 2) (Some 3) None)] in
+  let ops := [OGetView 0 "_InitialView"; OCreateView 1 "other" (Some 6) (Some 4); OAdd 0 0%N true; OAdd 2 1%N false;
+              OAdd 1 2%N true; OCreateView 2 "third" None None] in
+  let s := fst (run ts (init0 true heap) ops) in
+  fresh_run ts (init0 true heap) ops = true /\
+  map (fun x => (s_name x, s_xid x, s_num x)) (st_sheap (st s)) =
+    [("_InitialView"%string, 1, 1); ("other"%string, 6, 4); ("third"%string, 10, 5)] /\
+  map (fun p => f_xid (snd p)) (st_heap (st s)) = [Some 7; Some 8; Some 9] /\
+  st_genlog (st s) = [10; 9; 8; 7; 6; 1].
 Proof. cbv zeta. repeat split; vm_compute; reflexivity. Qed.
